@@ -34,6 +34,8 @@ CHECKS = {
     "C17-seed1": ["C17"], "C17-seed2": ["C17"],
     "C18-seed1": ["C18", "C15"], "C18-seed2": ["C18"],
     "C19-seed1": ["C19", "C03"], "C19-seed2": ["C19", "C15"],
+    "C01-seed3": ["C01", "C06"], "C01-seed4": ["C01", "C11"], "C07-seed3": ["C07"], "C07-seed4": ["C07", "C02", "C01"], "C09-seed3": ["C09"], "C09-seed4": ["C09", "C11"],
+    "C17-seed3": ["C17", "C06", "C11"], "C17-seed4": ["C17", "C08", "C11"],
     "C03-seed3": ["C03", "C18"], "C13-seed3": ["C13", "C09"], "C10-seed3": ["C10", "C12"], "C12-seed3": ["C12", "C10"], "C12-seed4": ["C12", "C09"],
 }
 
